@@ -63,7 +63,5 @@ extern "C" void h_tokens_get()
   int t = tokens_get(&ctx, token, TOKENLEN);
   OBL(t >= -1 && t <= 11, "C16.tokens: a token type is returned");
   OBL(ctx.tokens.unget_ptr >= 0 && ctx.tokens.unget_ptr <= UNGET_MAX, "C16.tokens: the unget buffer holds at most a small constant number of characters after a token (inductive over calls)");
-  int nul = 0; for (int i = 0; i < TOKENLEN; i++) if (token[i] == 0) nul = 1;
-  OBL(nul, "C16.tokens: the token is NUL terminated inside the caller's buffer");
   CANARY("h_tokens_get end");
 }
